@@ -24,7 +24,7 @@ def gen_power_script(rng, tier):
     K = rng.choice([4, 32])
     validate = rng.choice([0, 1])
     ignore = 1 if rng.random() < 0.3 else 0
-    L = ['cfg K=%d dup=1 group=2 bloom=none init=eager runtime=%s validate=%d ignore=%d' % (K, rng.choice(['mt', 'ct']), validate, ignore), 'open']
+    L = ['cfg K=%d dup=1 group=2 bloom=none init=eager runtime=%s validate=%d ignore=%d%s' % (K, rng.choice(['mt', 'ct']), validate, ignore, rng.choice(['', '', '', ' corrdir=lost+found'])), 'open']
     nclosed = rng.choice([0, 1, 1, 2])
     old_keys = []
     seed = 0
